@@ -348,3 +348,43 @@ Theorem C12_source_cs_read_full : forall rf rp fo po k sx m h, Forall byte sx ->
      \/ (st < 0 /\ Imp.lookup "*out" (vars fin) = Some VUndef /\ exists j, Imp.lookup cells_var (vars fin) = Some (VHeap (h ++ nones j)))).
 Proof. exact cs_read_full_source. Qed.
 Print Assumptions C12_source_cs_read_full.
+
+(* the table-slice level: sbdf_ts_read from the source, for a read of ALL columns (no column subset; the branch that skips a
+   column runs sbdf_cs_skip, which is proved only on the frame that keeps the stream in the input buffer), a table metadata
+   struct with n columns, every byte stream without bit arrays, EVERY allocation schedule.  cols_nobit / cols_end follow the
+   model's readers through the n column slices.  The call returns a status.  On every failure - no or another section
+   marker (TABLEEND included), a missing / negative / different column count, the struct or the columns array not allocated,
+   any column unreadable (stream or allocation, anywhere inside sbdf_cs_read) - the out-cell is untouched and everything the
+   call allocated has been released again: sbdf_ts_destroy hands every column read so far to sbdf_cs_destroy once (empty
+   slots are no-ops), then releases the array and the struct.  On success the stream stands behind the last column where
+   the model's readers leave it, and ONE sbdf_ts_destroy on the result releases every block the read allocated. *)
+From Sbdf Require Import ImpFactsTsRead.
+Theorem C12_source_ts_read : forall rf rp fo po k sx m (h : heap) tmb n, Forall byte sx -> 0 <= n <= 715827882 -> cell_get h tmb 1 = Some (VInt n) ->
+  (forall s1 s2, sec_read sx = Ok (3, s1) -> read_int32 false s1 = Ok (n, s2) -> cols_nobit (Z.to_nat n) s2) ->
+  exists f0, forall f, (f0 <= f)%nat -> exists st fin,
+    callC prog_env f prog_sbdf_ts_read [VPtr rf fo; VCell tmb 0; VNull; VPtr rp po] m k sx h = OReturn (VInt st) fin /\ prefix_of m (inb fin) /\
+    ((st = SBDF_OK /\ Imp.lookup "*out" (vars fin) = Some (VCell (List.length h) 0) /\
+        (exists s1 s2 s', sec_read sx = Ok (3, s1) /\ read_int32 false s1 = Ok (n, s2) /\ cols_end (Z.to_nat n) s2 = Some s' /\ Imp.lookup strm_var (vars fin) = Some (VBytes s')) /\
+        exists hnew, Imp.lookup cells_var (vars fin) = Some (VHeap (h ++ hnew)) /\ (2 <= List.length hnew)%nat /\
+          forall k' s', exists f1, forall g, (f1 <= g)%nat -> exists fin2,
+            callC prog_env g prog_sbdf_ts_destroy [VCell (List.length h) 0] (inb fin) k' s' (h ++ hnew) = ONormal fin2 /\
+            inb fin2 = inb fin /\ Imp.lookup cells_var (vars fin2) = Some (VHeap (h ++ nones (List.length hnew))))
+     \/ (st < 0 /\ Imp.lookup "*out" (vars fin) = Some VUndef /\ exists j, Imp.lookup cells_var (vars fin) = Some (VHeap (h ++ nones j)))).
+Proof. exact ts_read_source. Qed.
+Print Assumptions C12_source_ts_read.
+
+(* the translated sbdf_ts_read run by the interpreter: a table slice of two columns (a plain int column; a plain int column
+   with one property) against a table metadata struct with two columns is read; with the seventh allocation failing (the data block of the second column's values)
+   everything is released again *)
+Example C12_source_ts_read_runs :
+  let stream := [223; 91; 3;  2;0;0;0;
+                 223; 91; 4;  1; 2;  1;0;0;0;  5;0;0;0;  0;0;0;0;
+                 223; 91; 4;  1; 2;  1;0;0;0;  6;0;0;0;  1;0;0;0;  1;0;0;0; 112;  1; 1;  1;0;0;0; 1;   77] in
+  (match callC prog_env 3000 prog_sbdf_ts_read [tok; VCell 0 0; VNull; tok] [] (-1) stream [Some [VNull; VInt 2; VNull]] with
+   | OReturn v s => (v, Imp.lookup "*out" (vars s), Imp.lookup strm_var (vars s)) = (VInt SBDF_OK, Some (VCell 1 0), Some (VBytes [77]))
+   | _ => False end) /\
+  (match callC prog_env 3000 prog_sbdf_ts_read [tok; VCell 0 0; VNull; tok] [] 6 stream [Some [VNull; VInt 2; VNull]] with
+   | OReturn v s => (v, Imp.lookup "*out" (vars s), Imp.lookup cells_var (vars s)) =
+                    (VInt SBDF_ERROR_OUT_OF_MEMORY, Some VUndef, Some (VHeap [Some [VNull; VInt 2; VNull]; None; None; None; None; None]))
+   | _ => False end).
+Proof. vm_compute. repeat split. Qed.
